@@ -96,7 +96,7 @@ impl<S> WidthHeuristic<S> for SimWidth<S> {
 pub struct SchedCache<C> { inner: C, last_writer: Mutex<fxhash::FxHashMap<u64, usize>> }
 impl<C: Default> Default for SchedCache<C> { fn default() -> Self { SchedCache { inner: C::default(), last_writer: Default::default() } } }
 fn key_of<S: Hash>(s: &S, depth: usize) -> u64 { use std::hash::Hasher; let mut h = fxhash::FxHasher::default(); s.hash(&mut h); depth.hash(&mut h); h.finish() }
-impl<C> Cache for SchedCache<C> where C: Cache, C::State: Hash {
+impl<C> Cache for SchedCache<C> where C: Cache, C::State: Hash + 'static {
     type State = C::State;
     fn initialize(&mut self, problem: &dyn Problem<State = Self::State>) { self.inner.initialize(problem) }
     fn must_explore(&self, subproblem: &SubProblem<Self::State>) -> bool {
@@ -133,6 +133,7 @@ impl<C> Cache for SchedCache<C> where C: Cache, C::State: Hash {
         let lossy = c.cache_lossy_per_mille.load(Ordering::Relaxed);
         if lossy > 0 && (mix(c.cache_seed.load(Ordering::Relaxed) as u64 ^ 0x55, n as u64) % 1000) < lossy as u64 { c.cache_dropped.fetch_add(1, Ordering::Relaxed); return; }
         if let Some(me) = sched::current_tid() { self.last_writer.lock().unwrap().insert(key_of(state.as_ref(), depth), me); }
+        if let Some(ts) = (state.as_ref() as &dyn std::any::Any).downcast_ref::<crate::table::TState>() { let mut l = THRESHOLD_LOG.lock().unwrap(); if l.len() < 100_000 { l.push((ts.set, depth, value, explored)); } }
         self.inner.update_threshold(state, depth, value, explored)
     }
     fn clear_layer(&self, depth: usize) {
@@ -183,6 +184,10 @@ pub struct FringeStats { pub pushes: usize, pub pops: usize, pub clears: usize, 
     /// pushes of a sub-problem that had already been popped (same state, depth and path): a cut-set that makes no progress (signature of finding D5)
     #[serde(default)] pub repush_of_popped: usize }
 /// same counter, readable from the fatal hook of the scheduler
+/// every threshold published through `SchedCache` during the current run: (state set, depth, theta, explored); table-model states only
+pub static THRESHOLD_LOG: Mutex<Vec<(u32, usize, isize, bool)>> = Mutex::new(Vec::new());
+/// every sub-problem pushed on the checked fringe during the current run: (state key of `key_of`, depth, value)
+pub static PUSH_LOG: Mutex<Vec<(u64, usize, isize)>> = Mutex::new(Vec::new());
 pub static REPUSH_OF_POPPED: AtomicUsize = AtomicUsize::new(0);
 /// (state key, depth) of the first re-pushed sub-problems (readable from the fatal hook); the key comes from `CheckedFringe::key_of`
 pub static REPUSHED_KEYS: Mutex<Vec<(u64, usize)>> = Mutex::new(Vec::new());
@@ -223,6 +228,7 @@ impl<F: Fringe> Fringe for CheckedFringe<F> where F::State: Clone + Eq + Debug {
         self.stats.pushes += 1;
         if sched::trace_on() { eprintln!("[fringe] {:?} push state={:?} depth={} value={} ub={}", sched::current_tid(), node.state, node.depth, node.value, node.ub); }
         if self.popped.len() <= 4096 && self.popped.iter().any(|(s, d, p)| *d == node.depth && *s == *node.state && *p == node.path) { self.stats.repush_of_popped += 1; REPUSH_OF_POPPED.fetch_add(1, Ordering::SeqCst); if self.repushed.len() < 4 { self.repushed.push((node.state.as_ref().clone(), node.depth)); if let Some(k) = self.key_of { REPUSHED_KEYS.lock().unwrap().push((k(node.state.as_ref()), node.depth)); } } }
+        if let Some(k) = self.key_of { let mut l = PUSH_LOG.lock().unwrap(); if l.len() < 100_000 { l.push((k(node.state.as_ref()), node.depth, node.value)); } }
         let existing = if self.dedup { self.reference.iter().position(|x| same_sub(x, &node)) } else { None };
         match existing {
             Some(i) => {
